@@ -307,7 +307,8 @@ def rule_status_table(ctx):
     f = tus['rebound.c'].func('reb_run_heartbeat')
     for ifs in walk(cfront.body(f)):
         if ifs.get('kind') == 'IfStmt':
-            c = render(ifs['inner'][0])
+            mems_ = {'r.' + x['name'] for x in walk(ifs['inner'][0]) if x.get('kind') == 'MemberExpr' and x.get('name') in ('exit_max_distance', 'exit_min_distance')}
+            c = next(iter(mems_)) if len(mems_) == 1 else None
             for want_c, want_s in (('r.exit_max_distance', 'REB_STATUS_ESCAPE'), ('r.exit_min_distance', 'REB_STATUS_ENCOUNTER')):
                 if c == want_c:
                     n += 1
